@@ -349,6 +349,94 @@ func runLoad(c *core.Ctx, n int) {
 
 // runRetained (C08): a Resource value obtained once is used to send events in several lives of the service;
 // in every life the event is applied, published on that life's connection and handed to the listeners.
+// runQueryCallbackEvents: events sent on the QueryRequest a query callback is given (it is a Resource like
+// any other): applied, published, handed to the listeners - in that order.
+func runQueryCallbackEvents(c *core.Ctx) {
+	var recs []interface{}
+	for variant := 0; variant < 3; variant++ {
+		s := res.NewService("test")
+		s.SetLogger(nil)
+		s.SetQueryEventDuration(200 * time.Millisecond)
+		var mu sync.Mutex
+		var seq []string
+		note := func(x string) { mu.Lock(); seq = append(seq, x); mu.Unlock() }
+		s.Handle("qc.$id",
+			res.GetModel(func(r res.ModelRequest) { r.Model(map[string]int{"a": 1}) }),
+			res.ApplyCreate(func(r res.Resource, data interface{}) error { note("apply"); return nil }),
+			res.ApplyDelete(func(r res.Resource) (interface{}, error) { note("apply"); return map[string]int{"a": 1}, nil }))
+		s.AddListener("qc.$id", func(ev *res.Event) { note("listen") })
+		conn := rconn.New(nil)
+		conn.OnPub = func(m rconn.Msg) {
+			if strings.HasPrefix(m.Subject, "event.test.qc.1.") && !strings.HasSuffix(m.Subject, ".query") {
+				note("pub")
+			}
+		}
+		served := make(chan struct{})
+		s.SetOnServe(func(*res.Service) { close(served) })
+		done := make(chan error, 1)
+		go func() { done <- s.Serve(conn) }()
+		select {
+		case <-served:
+		case <-time.After(3 * time.Second):
+			c.Inconclusive("query-callback scenario: service did not start")
+			return
+		}
+		ran := make(chan struct{}, 4)
+		started := make(chan struct{})
+		s.With("test.qc.1", func(r res.Resource) {
+			r.QueryEvent(func(qr res.QueryRequest) {
+				if qr == nil {
+					return
+				}
+				core.Catch(func() {
+					switch variant {
+					case 0:
+						note("apply") // a custom event has no apply handler: keep the expected shape
+						qr.Event("custom", map[string]int{"v": 1})
+					case 1:
+						qr.DeleteEvent()
+					default:
+						qr.CreateEvent(map[string]int{"a": 2})
+					}
+				})
+				ran <- struct{}{}
+			})
+			close(started)
+		})
+		<-started
+		subj := ""
+		for _, m := range conn.PubsOn("event.test.qc.1.query") {
+			var p struct {
+				Subject string `json:"subject"`
+			}
+			json.Unmarshal(m.Data, &p)
+			subj = p.Subject
+		}
+		conn.Deliver(subj, "inbox.qc", []byte(`{"query":"x=1"}`))
+		select {
+		case <-ran:
+		case <-time.After(3 * time.Second):
+		}
+		time.Sleep(2 * time.Millisecond)
+		mu.Lock()
+		got := append([]string{}, seq...)
+		mu.Unlock()
+		recs = append(recs, map[string]interface{}{"kind": "querycb", "life": 1, "seq": got, "n": 0, "done": true,
+			"subj": []string{"custom event", "delete event", "create event"}[variant] + " sent on the QueryRequest inside a query callback", "seed": 0})
+		s.Shutdown()
+		select {
+		case <-done:
+		case <-time.After(3 * time.Second):
+		}
+	}
+	core.CheckRecords(c, "TraceLoad", "TraceLoad.cfg", recs, nil, func(i int, r interface{}, inv string) {
+		m := r.(map[string]interface{})
+		c.Violate(core.Violation{Signature: map[string]string{"engine": "reqsim", "kind": "C08:query-callback-event"},
+			Text: fmt.Sprintf("%v: effects %v, expected apply, pub, listen", m["subj"], m["seq"]), Replay: m})
+	})
+	c.Cover("query_callback_events", len(recs))
+}
+
 func runRetained(c *core.Ctx) {
 	var recs []interface{}
 	for variant := 0; variant < 4; variant++ {
